@@ -327,6 +327,37 @@ Proof.
 Qed.
 Print Assumptions C12_flushall_empties_pool_tcpassembly.
 
+(* the code as it stands, reassembly (second remove present, cfg_rsm): programs of packets and
+   FlushAll only - the age-based flush is the known finding C12-reassembly-second-remove *)
+Theorem C12_flushall_empties_pool_reassembly : forall progs s t rest,
+  age_free_progs progs ->
+  reachable rconn rc_init rc_closed rsm_reset rsm_process rsm_flush rsm_trail cfg_rsm progs s ->
+  quiescent_but rconn s t -> t_pc (thr s t) = PStart -> t_prog (thr s t) = OFlush None :: rest ->
+  exists s', reachable rconn rc_init rc_closed rsm_reset rsm_process rsm_flush rsm_trail cfg_rsm progs s' /\
+             s_conns s' = [] /\ t_pc (thr s' t) = next_pc rest.
+Proof.
+  intros progs s t rest AF R Q Hpc Hpr.
+  destruct (flushall_empties_pool_age_free rconn rc_init rc_closed rsm_reset rsm_process rsm_flush rsm_trail
+              rsm_machine_ok rsm_machine_tight rsm_flushall_closes cfg_rsm progs s t rest
+              (fun st => eq_refl) AF R Q Hpc Hpr) as [s' [_ [R' [Hc [Hp _]]]]].
+  exists s'. auto.
+Qed.
+Print Assumptions C12_flushall_empties_pool_reassembly.
+(* non-vacuity: three assemblers leave two connections in the pool, the fourth thread's FlushAll empties it *)
+Example C12_flushall_empties_pool_nonvacuous :
+  let progs := [[OPkt (mkPkt (mkKey 0 false) true false 1000%Z [] 1%Z)];
+                [OPkt (mkPkt (mkKey 1 false) true false 1000%Z [] 1%Z)]; [OFlush None]] in
+  let s := fst (run_sched rconn rc_init rc_closed rsm_reset rsm_process rsm_flush rsm_trail cfg_rsm (init rconn progs) false [0;0;0;1;1;1]) in
+  length (s_conns s) = 2 /\ quiescent_but rconn s 2 /\ t_pc (thr s 2) = PStart /\ age_free_progs progs /\
+  s_conns (fst (run_sched rconn rc_init rc_closed rsm_reset rsm_process rsm_flush rsm_trail cfg_rsm (init rconn progs) false [0;0;0;1;1;1;2;2;2;2;2])) = [].
+Proof.
+  split; [vm_compute; reflexivity|]. split.
+  - intros t2 N. destruct t2 as [|[|[|t2]]]; try (left; vm_compute; reflexivity); [congruence|].
+    left. unfold thr. rewrite nth_overflow; [reflexivity|]. vm_compute. lia.
+  - split; [vm_compute; reflexivity|]. split; [|vm_compute; reflexivity].
+    intros pr [<-|[<-|[<-|[]]]]; reflexivity.
+Qed.
+
 (* C12_complete_once, full and about complete runs: without recycling, a FlushAll called when every
    other assembler is quiescent returns with an empty pool and every stream that was ever
    entered in the pool completed exactly once.  The two hypotheses cannot be dropped:
